@@ -128,10 +128,13 @@ class CountingBudget(SearchBudget):
 class Recorder(SearchRecorder):
     """Records every register call together with the tracker's reported best at that moment."""
 
-    def __init__(self):
+    def __init__(self, cap=200000):
         self.log = []  # (individual, is_best, generation, tuple(reported best))
+        self.cap = cap
 
     def register(self, tracker, individual, problem, is_best):
+        if len(self.log) >= self.cap:
+            raise Watchdog(f"more than {self.cap} registrations")
         if hasattr(tracker, "get_best_individuals"):
             best = tuple(tracker.get_best_individuals())
         else:
